@@ -3,8 +3,10 @@ Model of the adaptive prefilter state of `src/memmem/searcher.rs`: `PrefilterSta
 (`skips`, `skipped` as `u32`), `update`, `is_effective`, `is_inert`, `skips()`, and `Pre`
 (the pair of a mutable state and a prefilter strategy handed to Two-Way).
 
-`PrefilterState::MIN_SKIP_BYTES * self.skips()` is a plain `u32` multiplication, i.e.
-overflow-checked when overflow checks are compiled in: it is modelled as a checked multiply.
+`is_effective` compares `skipped` with `MIN_SKIP_BYTES.saturating_mul(self.skips())`.  (Before
+the `fix:` commit recorded in known_findings.json as F1 this was a plain `u32` `*`, which is
+overflow-checked when overflow checks are compiled in; that version is kept below as
+`isEffectiveBeforeFix` together with the state on which it overflows.)
 -/
 import MemchrModel.Base.Slice
 import MemchrModel.Generated.Consts
@@ -50,7 +52,17 @@ def isEffective (s : PrefilterState) : M (Bool × PrefilterState) :=
   if s.isInert then pure (false, s)
   else if s.skipsM1 < MIN_SKIPS then pure (true, s)
   else
-    -- `PrefilterState::MIN_SKIP_BYTES * self.skips()` in u32, overflow-checked
+    -- `PrefilterState::MIN_SKIP_BYTES.saturating_mul(self.skips())`
+    let prod := min (MIN_SKIP_BYTES.toNat * s.skipsM1.toNat) (2 ^ 32 - 1)
+    if s.skipped.toNat ≥ prod then pure (true, s)
+    else pure (false, { s with skips := 0 })
+
+/-- `is_effective` as it was before the F1 fix: `MIN_SKIP_BYTES * self.skips()` in `u32`,
+overflow-checked. -/
+def isEffectiveBeforeFix (s : PrefilterState) : M (Bool × PrefilterState) :=
+  if s.isInert then pure (false, s)
+  else if s.skipsM1 < MIN_SKIPS then pure (true, s)
+  else
     let prod := MIN_SKIP_BYTES.toNat * s.skipsM1.toNat
     if prod ≥ 2 ^ 32 then
       fail (.overflow "PrefilterState::is_effective: MIN_SKIP_BYTES * self.skips()")
